@@ -5,7 +5,7 @@ THOROUGH_BUDGET_S = 600
 RULE = (
     "seeded scenarios: Filterbank.fold (streaming, two different gulps, kernels.fold spied from the harness to observe the "
     "hit counts) on a FilReader over 1-2 harness-written files, and TimeSeries.fold; generated period/tsamp ratios (incl. "
-    "near-integer), accel in {0, +-a}, (nbins, nints, nbands) incl. nbands not dividing nchans, DM with 0<=maxdelay<nsamps, "
+    "near-integer), accel in {0, small, and values whose drift term a*tobs/2c is 0.3%..30% so that it moves samples across bins}, (nbins, nints, nbands) incl. nbands not dividing nchans, DM with 0<=maxdelay<nsamps, "
     "gulps incl. < 2*maxdelay and non-divisible; scenarios whose model phase lies within 1e-4 bin of an edge for any sample, "
     "or whose sub-integration/sub-band index is decided by float rounding, are rejected (counted). Oracle: per-sample cell "
     "model (sub-integration by time order, sub-band by channel order, documented phase formula in float64 on the "
@@ -14,7 +14,7 @@ RULE = (
     "sub-integration. Fault runs: R1/R2 on input (exact-or-raises). Non-trivial = a cube was compared with the model; "
     "distinct = distinct event digests among those."
 )
-PROBES = [">=3-blocks", "index-with-maxdelay>0", "nbands-not-dividing-nchans", "accel!=0", "near-integer-period-ratio",
+PROBES = [">=3-blocks", "index-with-maxdelay>0", "nbands-not-dividing-nchans", "accel!=0", "accel-moves-bins", "near-integer-period-ratio",
           "two-gulps-compared", "counts-observed", "pulse-train", "kind:fil", "kind:tim", "gulp-raised-to-2maxdelay", "fault-raised"]
 COMPONENTS = {
     "real": ["sigpyproc.base.Filterbank.fold", "sigpyproc.timeseries.TimeSeries.fold", "kernels.fold (compiled)", "FilReader.read_plan", "FoldedData container"],
